@@ -7,6 +7,7 @@
 (*   inside  inserted at every cut of atom pos                               *)
 (*   subst   replacing each single character of atom pos in turn             *)
 (*   comma   atom pos "," fragment             slash   atom pos "/" fragment *)
+(*   newline atom pos LF fragment (a line of its own)                        *)
 (* The verdict is computed from the STRUCTURE of the value, not by searching *)
 (* the string: every splice must be rejected, except a fragment made only of *)
 (* URL-safe characters placed inside a plain url(http...) atom (it stays a   *)
@@ -23,7 +24,7 @@ Fam == TLCGet(43)
 CONSTANTS MaxAtoms, Emit, PropLo, PropHi     \* properties PropLo..PropHi of the sorted list (to split the work)
 
 Props == DOMAIN Fam.props
-Modes == {"sep", "before", "after", "inside", "subst", "comma", "slash"}
+Modes == {"sep", "before", "after", "inside", "subst", "comma", "slash", "newline"}
 
 VARIABLES prop, base, frag, mode, pos
 vars == <<prop, base, frag, mode, pos>>
